@@ -113,10 +113,11 @@ Definition authorize (c : cfg) (adm : bool) (actor level target : N) (o : op) : 
 
 (* ------------------------------------------------------------------ credentials *)
 
-(* the two credential shapes that can pass checkAuth on these endpoints: a valid session cookie
-   (user, level) and a verified keymaster client-certificate chain (Model/Auth.v has the full
-   checkAuth; Proofs/Authz.v relates the two) *)
-Inductive cred := NoCred | Session (user level : N) | KMCert (user : N).
+(* the credential shapes of the matrix: a valid session cookie (user, level), a verified keymaster
+   client-certificate chain, and an IP-restricted automation certificate (role CA; none of these
+   endpoints asks for AuthTypeIPCertificate, so it never admits anybody here).  Model/Auth.v has
+   the full checkAuth; Proofs/Authz.v relates the two *)
+Inductive cred := NoCred | Session (user level : N) | KMCert (user : N) | IPCert (user : N).
 
 Definition required_for (c : cfg) (o : op) : N :=
   match o with
@@ -130,6 +131,7 @@ Definition authenticate (required : N) (cr : cred) : option (N * N) :=
   | NoCred => None
   | Session u l => if hasb l required then Some (u, l) else None
   | KMCert u => if hasb required bKMX509 then Some (u, bKMX509) else None
+  | IPCert _ => None
   end.
 
 (* ------------------------------------------------------------------ profile store *)
@@ -382,4 +384,33 @@ Fixpoint run (c : cfg) (s : store) (l : list request) : store :=
   match l with
   | [] => s
   | r :: rest => run c (fst (step c s r)) rest
+  end.
+
+(* ------------------------------------------------------------------ comparison helpers for
+   the correspondence case files *)
+Definition tok_eqb (a b : tok) : bool := (tk_name a =? tk_name b) && Bool.eqb (tk_enabled a) (tk_enabled b).
+Fixpoint tokens_eqb (a b : tokens) : bool :=
+  match a, b with
+  | [], [] => true
+  | (i, x) :: r, (j, y) :: s => Z.eqb i j && tok_eqb x y && tokens_eqb r s
+  | _, _ => false
+  end.
+Definition profile_eqb (a b : profile) : bool :=
+  tokens_eqb (p_u2f a) (p_u2f b) && tokens_eqb (p_wa a) (p_wa b) && tokens_eqb (p_totp a) (p_totp b) &&
+  Bool.eqb (p_regchal a) (p_regchal b) && Bool.eqb (p_pending_totp a) (p_pending_totp b) &&
+  Bool.eqb (p_wa_session a) (p_wa_session b) && Bool.eqb (p_bootstrap a) (p_bootstrap b) &&
+  Bool.eqb (p_registered a) (p_registered b).
+Definition oprofile_eqb (a b : option profile) : bool :=
+  match a, b with
+  | None, None => true
+  | Some x, Some y => profile_eqb x y
+  | _, _ => false
+  end.
+(* two stores agree on every user of a list *)
+Definition stores_agree (us : list N) (a b : store) : bool :=
+  forallb (fun u => oprofile_eqb (find a u) (find b u)) us.
+Definition resp_eqb (a b : resp) : bool :=
+  match a, b with
+  | ROk, ROk | RDenied, RDenied | RBad, RBad | RErr, RErr => true
+  | _, _ => false
   end.
